@@ -178,7 +178,7 @@ Section Order.
   Lemma astep_acc_C01 (s s' : lstate U) : link s -> acc chk_C01 s -> astep s s' -> acc chk_C01 s'.
   Proof.
     intros L A St.
-    destruct St as [s s' C T|s e P|s sp|s sg R F|s p c sg q' P|s p c sg q' P|s|s|s FQ|s top rest_rev R|s o|s cls hid data|s arg].
+    destruct St as [s s' C T|s e P|s sp|s sg R F|s p c sg q' P|s p c sg q' P|s|s|s FQ|s top rest_rev R|s o|s cls hid data|s arg|s|s q H1 H2].
     - eapply acc_trace; eauto.
     - apply acc_emit. split; [exact A|]. apply chk_C01_other. destruct e; try exact I; discriminate P.
     - unfold new_signal. cbn [snd]. apply acc_emit. split; [exact A|reflexivity].
@@ -196,6 +196,8 @@ Section Order.
         apply acc_emit. split; [exact A|reflexivity].
     - apply acc_emit. split; [exact A|reflexivity].
     - apply acc_emit. split; [exact A|reflexivity].
+    - apply acc_emit. split; [exact A|reflexivity].
+    - eapply acc_trace; [|exact A]. reflexivity.
     - apply acc_emit. split; [exact A|reflexivity].
   Qed.
 
